@@ -5,6 +5,8 @@ Every random choice derives from one numpy Generator seeded by VERIF_SEED.
 """
 import os
 import copy
+import json
+import os
 import warnings
 import numpy as np
 import pandas as pd
@@ -73,6 +75,10 @@ def synth_weather(spec):
                   rng.normal(0, 0.6, n), 0.1, 20)
     if regime == "hot":
         et0 = np.clip(et0 * 1.5, 0.1, 20)
+    if regime in ("cold", "mild"):
+        # a user-built table is not clipped at 0.1 mm/day the way `prepare_weather` clips the shipped files:
+        # a few days of almost no evaporative demand
+        et0[rng.integers(0, n, max(2, n // 90))] = 0.05
     df = pd.DataFrame({"MinTemp": np.round(tmin, 1), "MaxTemp": np.round(tmax, 1),
                        "Precipitation": np.round(rain, 1), "ReferenceET": np.round(et0, 2),
                        "Date": dates})
@@ -275,11 +281,11 @@ def random_gw(rng, start, end):
     k = rng.integers(4)
     if k == 0:
         return {"water_table": "Y", "method": "Constant", "dates": [start.replace("/", "-")],
-                "values": [float(rng.choice([0.3, 0.8, 1.2, 2.0, 3.5, 8.0, 30.0]))]}
+                "values": [float(rng.choice([0.04, 0.12, 0.3, 0.8, 1.2, 2.0, 3.5, 8.0, 30.0]))]}
     ds = pd.date_range(start, end, freq="D")
     pts = sorted(set([0] + rng.integers(0, len(ds), 3).tolist()))
     dates = [ds[i].strftime("%Y-%m-%d") for i in pts]
-    vals = [float(rng.choice([0.4, 1.0, 1.5, 2.5, 4.0, 12.0])) for _ in pts]
+    vals = [float(rng.choice([0.04, 0.12, 0.4, 1.0, 1.5, 2.5, 4.0, 12.0])) for _ in pts]
     return {"water_table": "Y", "method": "Constant" if k == 1 else "Variable", "dates": dates,
             "values": vals}
 
@@ -306,6 +312,8 @@ def gen_scenario(rng, idx, strata=None):
     if soil_kind == "builtin":
         soil = {"type": st.get("soil") or str(rng.choice(BUILTIN_SOILS))}
         dz = DZ_CHOICES[rng.integers(len(DZ_CHOICES))]
+        if "dz" in st:
+            dz = st["dz"]
         if dz is not None and soil["type"] != "ac_TunisLocal":
             soil["dz"] = dz
         nlayer = 2 if soil["type"] in ("Paddy", "ac_TunisLocal") else 1
@@ -344,11 +352,15 @@ def gen_scenario(rng, idx, strata=None):
         method = int(rng.integers(0, 6))
     scen["irr"] = random_irr(rng, method, start, end) if method != 0 or rng.random() < 0.5 else None
     scen["fm"] = random_fm(rng, st.get("fm"))
+    if scen["fm"] is not None and "fm_over" in st:
+        scen["fm"].update(st["fm_over"])
     scen["ffm"] = random_fm(rng, st["ffm"]) if "ffm" in st else (random_fm(rng) if rng.random() < 0.25 else None)
     gw = st.get("gw")
     if gw is None:
         gw = rng.random() < 0.25
     scen["gw"] = random_gw(rng, start, end) if gw else None
+    if scen["gw"] is not None and st.get("gw_shallow"):
+        scen["gw"]["values"] = [float(rng.choice([0.04, 0.12, 0.25])) for _ in scen["gw"]["values"]]
     c = rng.random()
     scen["co2"] = None if c < 0.6 else ({"constant": True, "current": float(rng.choice([0, 300, 369.41, 450, 700]))}
                                         if c < 0.85 else {"constant": False})
@@ -376,9 +388,15 @@ QUICK_STRATA = [
     dict(crop="DryBean", station="cordoba_climate.txt", irr_method=0, synth=True, regime="hot", n_seasons=1, start_mode="at"),
     dict(crop="Tef", station="tunis_climate.txt", irr_method=2, synth=True, regime="cold", n_seasons=1, start_mode="before", off_season=True),
     dict(crop="PotatoGDD", station="brussels_climate.txt", irr_method=5, fm="mix", n_seasons=1, start_mode="before", off_season=True),
-    # bunds during the season only, fallow days simulated, ponding soil, storms: water is still ponded when the bunds go
-    dict(crop="Maize", station="champion_climate.txt", irr_method=0, fm="bunds", ffm="none", soil="Clay", soil_kind="builtin",
-         synth=True, regime="storm", n_seasons=2, start_mode="before", off_season=True),
+    # bunds during the season only, fallow days simulated, soil with a slowly draining pan: water is still ponded
+    # on the day the bunds go (the one day on which reported infiltration is legitimately negative)
+    dict(crop="PaddyRice", station="hyderabad_climate.txt", irr_method=5, fm="bunds", fm_over={"z_bund": 0.2}, ffm="none",
+         soil="Paddy", soil_kind="builtin", dz=[0.1] * 12, n_seasons=2, start_mode="before", off_season=True),
+    dict(crop="Maize", irr_method=2, fm="bunds", fm_over={"z_bund": 0.2}, ffm="none", soil="Paddy", soil_kind="builtin",
+         dz=None, synth=True, regime="storm", n_seasons=2, start_mode="before", off_season=True),
+    # a crop without aeration stress rooting below a very shallow water table
+    dict(crop="PaddyRice", station="hyderabad_climate.txt", irr_method=0, gw=True, gw_shallow=True, soil="Paddy", soil_kind="builtin",
+         dz=[0.1] * 12, n_seasons=1, start_mode="at"),
     # net irrigation on a ponded field
     dict(crop="PaddyRice", station="hyderabad_climate.txt", irr_method=4, fm="bunds", soil="Paddy", soil_kind="builtin",
          n_seasons=1, start_mode="at"),
@@ -394,9 +412,23 @@ QUICK_STRATA = [
 ]
 
 
-def gen_scenarios(seed, n):
-    rng = np.random.default_rng(int(seed))
+CORPUS_DIR = os.path.join(os.path.dirname(os.path.abspath(__file__)), "corpus")
+
+
+def corpus():
+    """fixed scenarios kept because they deterministically contain a rare event (a bund-release day with
+    ponded water, …) or reproduced a past failure; they are part of every trace set, whatever the seed"""
     out = []
+    if os.path.isdir(CORPUS_DIR):
+        for f in sorted(os.listdir(CORPUS_DIR)):
+            if f.endswith(".json"):
+                out.append(json.load(open(os.path.join(CORPUS_DIR, f))))
+    return out
+
+
+def gen_scenarios(seed, n, with_corpus=True):
+    rng = np.random.default_rng(int(seed))
+    out = list(corpus()) if with_corpus else []
     for i in range(n):
         st = QUICK_STRATA[i] if i < len(QUICK_STRATA) else None
         out.append(gen_scenario(rng, i, st))
